@@ -1,20 +1,22 @@
 #!/bin/sh
 # dev/seeds-all.sh — apply every stored seeded change to a scratch worktree and run its property's quick check;
 # one line per seed in dev/seed-results.tsv. Not a registered command.
-OUT=/verif/dev/seed-results.tsv
+ROOT="$(cd "$(dirname "$0")/.." && pwd)"
+OUT=$ROOT/dev/seed-results.tsv
 : > $OUT
-for D in /verif/seeded/*/; do
+for D in $ROOT/seeded/*/; do
   N=$(basename $D); P=$(echo $N | cut -d- -f1)
   WT=/tmp/wt-seed-$$
   git -C /repo worktree add -q --detach "$WT" HEAD || exit 2
   if git -C "$WT" apply "$D/patch.diff" 2>/dev/null; then
-    LOG=$(VERIF_EVIDENCE_DIR=/tmp/mut-evidence VERIF_REPLAY_DIR=/tmp/mut-replays VERIF_REPO="$WT" timeout 1500 /verif/check "$P" --tier quick 2>&1)
-    V=$(echo "$LOG" | grep -E "^VIOLATION" | head -1 | sed 's|/tmp/mut-replays/||')
+    LOG=$(VERIF_EVIDENCE_DIR=/tmp/mut-evidence-$$ VERIF_REPLAY_DIR=/tmp/mut-replays-$$ VERIF_REPO="$WT" timeout 1500 "$ROOT/check" "$P" --tier quick 2>&1)
+    V=$(echo "$LOG" | grep -E "^VIOLATION" | head -1 | sed 's|/tmp/mut-replays-[0-9]*/||')
     printf "%s\t%s\n" "$N" "${V:-NOT REPORTED}" >> $OUT
   else
     printf "%s\t%s\n" "$N" "PATCH DOES NOT APPLY (tree changed since the seed was made)" >> $OUT
   fi
   git -C /repo worktree remove --force "$WT"
 done
-/verif/.build/extract -repo /repo -out /verif/lean/OsmVerif/Gen >/dev/null
+"$ROOT/.build/extract" -repo /repo -out "$ROOT"/lean/OsmVerif/Gen >/dev/null
+rm -rf /tmp/mut-evidence-$$ /tmp/mut-replays-$$
 git -C /repo worktree prune
